@@ -2178,6 +2178,32 @@ def _c15_join_suffix_collides(c, pat, ops):
     return False
 
 
+def _c15_standin_collides(c, ops):
+    """`subframe["_data_algebra_temp_g"] = 1` of the Pandas windowed extend runs AFTER the window sort, on a sub-frame of the
+    partition, order and value columns: a user column of that name is harmed when it is a partition column or an argument
+    of a windowed operation; used as an order column only (or not used by the step at all) it is read before it is
+    overwritten in the sub-frame and never written in the result."""
+    seen, stack = set(), [ops]
+    while stack:
+        n = stack.pop()
+        if id(n) in seen:
+            continue
+        seen.add(id(n))
+        stack.extend(n.sources)
+        if n.node_name == "ExtendNode" and (n.windowed_situation or len(n.partition_by) > 0 or len(n.order_by) > 0):
+            if c in set(n.partition_by):
+                return True
+            for e in n.ops.values():
+                used = set()
+                try:
+                    e.get_column_names(used)
+                except Exception:
+                    return True
+                if c in used:
+                    return True
+    return False
+
+
 def c15_scratch_columns(backend, names, kinds, ops=None):
     """the names among `names` that executor `backend` uses as a scratch column in a step the pipeline contains (for the
     Pandas join suffix: at a join where it really collides, when the renamed pipeline `ops` is given)"""
@@ -2190,6 +2216,9 @@ def c15_scratch_columns(backend, names, kinds, ops=None):
                     or (how == "suffix" and c.endswith(pat) and len(c) > len(pat))):
                 if be == "pandas" and how == "suffix" and pat == "_tmp_right_col" and ops is not None \
                         and not _c15_join_suffix_collides(c, pat, ops):
+                    continue
+                if be == "pandas" and how == "exact" and pat == "_data_algebra_temp_g" and ops is not None \
+                        and not _c15_standin_collides(c, ops):
                     continue
                 out.append(c)
                 break
